@@ -272,13 +272,15 @@ func monitorLines(lines []string) (vs []hxlib.Violation) {
 		if at <= 0 {
 			lo, hi = 1, 1
 		}
-		ls := append([]string{lines[0]}, lines[lo:hi]...)
+		window := append([]string{}, lines[lo:hi]...)
 		for _, v := range vs {
 			if v.Sig == sig {
 				return
 			}
 		}
-		vs = append(vs, hxlib.Violation{Sig: sig, What: what, Lines: ls})
+		// Lines = the whole recorded trace (a replay re-validates exactly what was recorded and re-executes the
+		// scenario); Output = the events around the failing observation.
+		vs = append(vs, hxlib.Violation{Sig: sig, What: what, Lines: lines, Output: window})
 	}
 	if tr.scn == nil {
 		add("C05:bad-scenario-line", "scenario line does not parse", 0)
